@@ -26,7 +26,7 @@
 //        -> fill= gen= fe1= fe2= fe3= tr1= tr2= min= max= minat= maxat= eq= cp=   (fe*, tr*, eq, cp: one result per overload / model
 //           combination, joined by '/': every source mutable and const, value and planar reference; destinations value and planar)
 //   alg3 <cs> <T> <l1> <l2> <l3> v0 .. | w0 .. | u0 ..   (three layouts, aliased arguments: see alg3_h)
-//        -> tr2= trs= fe3= fes2= fes3= eqs= cps= fillp= genp=
+//        -> f3a= f3b= f3c= trw= tr2= trs= fe3= fes2= fes3= eqs= cps= fillp= genp=
 #include <boost/gil.hpp>
 #include "harness.hpp"
 #include <memory>
@@ -269,6 +269,8 @@ template <typename T, typename L1, typename L2> static string alg_h(std::vector<
 //   fe3: static_for_each(a, b, c) for every model / constness of the three
 //   only when L1 == L2 == L3: fes2 / fes3 static_for_each(x, x) / (x, x, x), eqs static_equal(x, x), cps static_copy(x, x),
 //        fillp / genp static_fill / static_generate on a planar reference (mutable and const reference object)
+//   f3a / f3b / f3c: static_for_each(x, b, x) (L1 == L3) / (a, y, y) (L2 == L3) / (x, x, c) (L1 == L2): two of the three are ONE object
+//   trw: (L1 == L3) static_transform(acc, b, d) with d a planar reference bound to the channels of the value pixel acc
 template <typename T, typename L1, typename L2, typename L3> static string alg3_h(std::vector<double> v, std::vector<double> w, std::vector<double> u) {
     constexpr int n = nchan<L1>(); using p1_t = gil::pixel<T, L1>; using p2_t = gil::pixel<T, L2>; using p3_t = gil::pixel<T, L3>;
     using cs_t = typename L1::color_space_t; using pref_t = gil::planar_pixel_reference<T&, cs_t>;
@@ -351,8 +353,23 @@ template <typename T, typename L1, typename L2, typename L3> static string alg3_
             { T dp[n]; load(dp, v); pref_t const r = make_planar<pref_t>(dp, N{}); int c = 100; gil::static_generate(r, counter<T>{&c}); add(genp, rd(dp)); }
         }
     }
+    // partially aliased three-base static_for_each: (x, b, x) / (a, y, y) / (x, x, c), first-and-third etc. the SAME object (4 const combinations)
+    string f3a, f3b, f3c, trw;
+    auto own2 = [&](auto f) { f(p2); if constexpr (planar2) { pref_t r = make_planar<pref_t>(pl2, N{}); f(r); } };
+    if constexpr (same13) for_p2([&](auto& b) { own1([&](auto& x) { four(x, [&](auto& s1, auto& s3) {
+        std::vector<double> s; gil::static_for_each(s1, b, s3, rec3{&s}); add(f3a, s); }); }); });
+    if constexpr (same23) for_p1([&](auto& a) { own2([&](auto& y) { four(y, [&](auto& s2, auto& s3) {
+        std::vector<double> s; gil::static_for_each(a, s2, s3, rec3{&s}); add(f3b, s); }); }); });
+    if constexpr (same12) for_p3([&](auto& c) { own1([&](auto& x) { four(x, [&](auto& s1, auto& s2) {
+        std::vector<double> s; gil::static_for_each(s1, s2, c, rec3{&s}); add(f3c, s); }); }); });
+    // the destination is a planar reference BOUND to the channels of the first source (a value pixel of layout L1, any channel order):
+    // another type and another memory order than the source it aliases
+    if constexpr (same13 && n >= 2 && is_plain_layout<L1>::value) for_p2([&](auto& b) {
+        { p1_t acc = p1; pref_t const d(acc); gil::static_transform(acc, b, d, comb<T>{}); add(trw, phys(acc)); }
+        { p1_t acc = p1; pref_t d(acc); gil::static_transform(std::as_const(acc), b, d, comb<T>{}); add(trw, phys(acc)); }
+    });
     auto dash = [](const string& x) { return x.empty() ? string("-") : x; };
-    return "tr2=" + tr2 + " trs=" + dash(trs) + " fe3=" + fe3 + " fes2=" + dash(fes2) + " fes3=" + dash(fes3) + " eqs=" + dash(eqs)
+    return "f3a=" + dash(f3a) + " f3b=" + dash(f3b) + " f3c=" + dash(f3c) + " trw=" + dash(trw) + " tr2=" + tr2 + " trs=" + dash(trs) + " fe3=" + fe3 + " fes2=" + dash(fes2) + " fes3=" + dash(fes3) + " eqs=" + dash(eqs)
          + " cps=" + dash(cps) + " fillp=" + dash(fillp) + " genp=" + dash(genp);
 }
 #endif
